@@ -382,7 +382,15 @@ def run_impl(options: CMDOptions, builddir: str) -> int:
 
         save = False
         if has_option_flags(options):
-            save |= c.coredata.set_from_configure_command(options)
+            # -U of an option that no longer exists but is still recorded in
+            # cmd_line.txt (it was removed from the option file) only drops the record.
+            recorded = cmdline.CmdLineFileParser()
+            recorded.read(cmdline.get_cmd_line_file(builddir))
+            optstore = c.coredata.optstore
+            d_args = {k: v for k, v in options.cmd_line_options.items()
+                      if not (v is None and k not in optstore.augments and k not in optstore.options
+                              and recorded.has_option('options', str(k)))}
+            save |= optstore.set_from_configure_command(d_args)
             cmdline.update_cmd_line_file(builddir, options)
         if options.clearcache:
             c.clear_cache()
